@@ -19,6 +19,9 @@ Definition X (v : value) : bool * value := (true, v).     (* exported field *)
 Definition U (v : value) : bool * value := (false, v).    (* field reflect cannot set *)
 Definition If (v : value) : value := VIface (Some v).
 Definition IfN : value := VIface None.
+Definition Xz : bool * value := X (Sc 0).                (* frequent fields, to keep the cases files small *)
+Definition Xn : bool * value := X PtN.
+Definition Uz : bool * value := U (Sc 0).
 
 Inductive case :=
 | Clone (n : Z)                 (* cells 0..n-1 are the ones the original reaches *)
